@@ -328,6 +328,16 @@ Proof.
   - apply keeps_same_peers. cbn [m_peers]. apply pget_pset_other. exact Hn.
 Qed.
 
+(* an accepted incoming connection (repaired listener) leaves every connected peer's entry alone *)
+Lemma accept_keeps a m b : EnvKeeps a m (fst (accept_peer_with true m b)).
+Proof.
+  unfold accept_peer_with. destruct (MAX_NOT_INTERESTED <=? _); [apply keeps_same_peers; reflexivity|].
+  destruct (pget (m_peers m) b) eqn:Eb; cbn [andb fst]; [apply keeps_same_peers; reflexivity|].
+  destruct (N.eq_dec b a) as [->|Hn].
+  - unfold EnvKeeps. rewrite Eb. cbn [with_peer m_peers]. intros p' H. rewrite pget_pset_same in H. injection H as <-. reflexivity.
+  - apply keeps_same_peers. cbn [with_peer m_peers]. apply pget_pset_other. exact Hn.
+Qed.
+
 Lemma mstep_other_keeps m c pk m' rep bc sp a : cmd_addr c <> a ->
   mstep m c pk = Ok (m', rep, bc, sp) -> EnvKeeps a m m'.
 Proof.
